@@ -356,6 +356,113 @@ def history_independence(ctx):
     ctx.nontrivial_case(("independence", len(inputs)))
 
 
+EXTENSION_CHILD = r"""
+import sys, json, functools, inspect, operator
+from _delb.plugins import plugin_manager
+from _delb.xpath import parse
+from _delb.exceptions import XPathParsingError
+import delb
+
+class Upper:                       # an instance of a class with __call__
+    def __call__(self, context, string):
+        return str(string).upper()
+class Joiner:
+    def __call__(self, context, *strings):
+        return "".join(str(x) for x in strings)
+class Methods:
+    def pick(self, context, a, b):
+        return a
+def _prefixed(prefix, context, string):
+    return prefix + str(string)
+def _plain(context, a, b):
+    return a
+
+EXTENSIONS = {
+    "vx-upper": Upper(),                                   # callable instance, one argument
+    "vx-join": Joiner(),                                   # callable instance, *args
+    "vx-prefixed": functools.partial(_prefixed, ">"),      # functools.partial, one argument left
+    "vx-pick": Methods().pick,                             # bound method, two arguments
+    "vx-contains": operator.contains,                      # C callable (a, b, /): context + one argument
+    "vx-plain": _plain,                                    # an ordinary function, for comparison
+}
+for name, obj in EXTENSIONS.items():
+    plugin_manager.register_xpath_function(name)(obj)
+
+def accepted(obj, k):
+    # the documented rule: the first parameter is the context, the others are the expression's arguments
+    ps = list(inspect.signature(obj).parameters.values())
+    if len(ps) > 1 and ps[-1].kind != inspect.Parameter.VAR_POSITIONAL:
+        return len(ps) == k + 1
+    return True
+
+root = delb.Document("<r><a k='v'/><a/></r>").root
+ARGS = ["@k", "'s'", "1", "@j", "'t'"]
+for name, obj in EXTENSIONS.items():
+    for k in range(5):
+        call = "%s(%s)" % (name, ",".join(ARGS[:k]))
+        for s in ("a[%s]" % call, "//a[%s='x' and @k]" % call, "a[not(%s)]" % call):
+            want = "ok" if accepted(obj, k) else "xpe"
+            got = []
+            for label, f in (("parse", parse.__wrapped__), ("parse again", parse.__wrapped__), ("cached parse", parse)):
+                try:
+                    f(s); got.append("ok")
+                except XPathParsingError as e:
+                    try:
+                        str(e); got.append("xpe")
+                    except BaseException as x:
+                        got.append("str(e) raises " + type(x).__name__)
+                except BaseException as e:
+                    got.append(type(e).__name__)
+            via_xpath = None
+            if want == "xpe":
+                try:
+                    root.xpath(s); via_xpath = "returned"
+                except XPathParsingError:
+                    via_xpath = "xpe"
+                except BaseException as e:
+                    via_xpath = type(e).__name__
+            print(json.dumps({"s": s, "kind": type(obj).__name__, "args": k, "want": want, "got": got, "xpath": via_xpath}),
+                  flush=True)
+print(json.dumps({"done": True}), flush=True)
+"""
+
+
+def extension_functions(ctx):
+    """XPath functions registered by the application (plugin_manager.register_xpath_function) need not be plain Python
+    functions: a callable instance, a functools.partial, a bound method, a C callable.  Expressions calling them with the
+    right number of arguments must parse, with a wrong number raise XPathParsingError (from parse() and from
+    NodeBase.xpath()), never anything else.  Run in a child interpreter so that the registry of this process, the
+    generated function table and the other phases are not affected."""
+    import subprocess
+    env = dict(os.environ, PYTHONPATH=common.REPO + os.pathsep + os.path.join(common.VERIF, "harness"), PYTHONHASHSEED="0")
+    try:
+        p = subprocess.run([common.PY, "-c", EXTENSION_CHILD], capture_output=True, text=True, env=env, timeout=300)
+    except subprocess.TimeoutExpired:
+        ctx.fail("parsing calls of registered extension functions did not finish within 300 s", {"family": "extension"})
+        return
+    recs = [json.loads(l) for l in p.stdout.splitlines() if l.startswith("{")]
+    if not recs or not recs[-1].get("done"):
+        ctx.mismatch("extension function child", {"stderr": p.stderr[-800:], "records": len(recs)})
+        return
+    for r in recs[:-1]:
+        ctx.count(1, "extension/%s/%s" % (r["kind"], r["want"]))
+        case = {"expression": r["s"], "family": "extension", "registered": r["kind"], "arguments": r["args"]}
+        bad = [g for g in r["got"] if g != r["want"]]
+        if bad:
+            others = [g for g in r["got"] if g not in ("ok", "xpe")]
+            if others:
+                ctx.fail("parse(%r) raises %s instead of %s (the function is a registered %s)"
+                         % (r["s"], others[0], "XPathParsingError" if r["want"] == "xpe" else "returning an expression",
+                            r["kind"]), dict(case, exception=others[0]))
+            else:
+                ctx.fail("parse(%r) %s although the registered %s takes %s %d arguments"
+                         % (r["s"], "is rejected" if r["want"] == "ok" else "returns an expression", r["kind"],
+                            "" if r["want"] == "ok" else "not", r["args"]), dict(case, outcomes=r["got"]))
+        elif r["xpath"] not in (None, "xpe"):
+            ctx.fail("NodeBase.xpath(%r) %s instead of raising XPathParsingError" % (r["s"], r["xpath"]), dict(case, via="xpath"))
+    ctx.nontrivial_case(("extension", len(recs)))
+
+
 def replay_open(f):
     return False             # no open finding
 
@@ -766,6 +873,8 @@ def run(ctx, args):
             ambient_int_limit(ctx)
         elif case and case.get("family") == "independence":
             history_independence(ctx)
+        elif case and case.get("family") == "extension":
+            extension_functions(ctx)
         elif case and case.get("family") == "rejected-everywhere":
             rejected_everywhere(ctx)
         elif case and "expression" in case:
@@ -795,6 +904,7 @@ def run(ctx, args):
         return ctx.finish("termination probe only (a parse did not terminate; the other phases were skipped)",
                           replay_open=replay_open)
     history_independence(ctx)
+    extension_functions(ctx)
     rejected_everywhere(ctx)
     check_cases(ctx, cases)
     cache_half(ctx, 40 if quick else 600, 120)
